@@ -7,7 +7,9 @@ import (
 	sdk "github.com/cosmos/cosmos-sdk/types"
 	authtypes "github.com/cosmos/cosmos-sdk/x/auth/types"
 	banktypes "github.com/cosmos/cosmos-sdk/x/bank/types"
+	distrtypes "github.com/cosmos/cosmos-sdk/x/distribution/types"
 	govtypes "github.com/cosmos/cosmos-sdk/x/gov/types"
+	stakingtypes "github.com/cosmos/cosmos-sdk/x/staking/types"
 
 	"github.com/osmosis-labs/osmosis/osmomath"
 	clmodel "github.com/osmosis-labs/osmosis/v31/x/concentrated-liquidity/model"
@@ -18,7 +20,9 @@ import (
 	incentivestypes "github.com/osmosis-labs/osmosis/v31/x/incentives/types"
 	lockuptypes "github.com/osmosis-labs/osmosis/v31/x/lockup/types"
 	pmtypes "github.com/osmosis-labs/osmosis/v31/x/poolmanager/types"
+	sftypes "github.com/osmosis-labs/osmosis/v31/x/superfluid/types"
 	tftypes "github.com/osmosis-labs/osmosis/v31/x/tokenfactory/types"
+	valsettypes "github.com/osmosis-labs/osmosis/v31/x/valset-pref/types"
 
 	"github.com/osmosis-labs/osmosis/v31/zzverif/core"
 )
@@ -28,6 +32,9 @@ import (
 type Block struct {
 	Dt  time.Duration
 	Txs [][]sdk.Msg
+	// Pre is a keeper-level step executed at the start of the block on every node alike (what a passed
+	// governance proposal would do); part of the history.
+	Pre func(n *Node)
 }
 
 type Script struct {
@@ -177,5 +184,48 @@ func Scripts() []Script {
 		{Dt: day, Txs: one(swapIn(T, c("bar", 100_000), hop(1, "foo")))},
 		{Dt: 5 * time.Second, Txs: one(swapIn(T, c("foo", 100_000), hop(1, "bar")))},
 	}}
-	return []Script{dex, skim}
+	// superfluid staking, validator-set preferences, plain staking and distribution
+	val0, val1 := core.ValAddr(0).String(), core.ValAddr(1).String()
+	unbond := 3 * time.Hour
+	week := 8 * 24 * time.Hour
+	shares := func(n int64) sdk.Coins { return sdk.NewCoins(sdk.NewCoin("gamm/pool/1", sdkmath.NewIntWithDecimal(n, 18))) }
+	sf := Script{Name: "sf", Blocks: []Block{
+		{Dt: 5 * time.Second, Txs: one(
+			balancerPool(A, c("foo", 50_000_000), c("stake", 20_000_000), 1, 1, "0.003"),
+			&gammtypes.MsgJoinPool{Sender: B, PoolId: 1, ShareOutAmount: sdkmath.NewIntWithDecimal(30, 18), TokenInMaxs: []sdk.Coin{c("foo", 50_000_000), c("stake", 50_000_000)}},
+		)},
+		{Dt: 5 * time.Second,
+			Pre: func(n *Node) {
+				if err := n.Env.App.SuperfluidKeeper.AddNewSuperfluidAsset(n.Ctx, sftypes.SuperfluidAsset{Denom: "gamm/pool/1", AssetType: sftypes.SuperfluidAssetTypeLPShare}); err != nil {
+					panic(err)
+				}
+			},
+			Txs: one(
+				&sftypes.MsgLockAndSuperfluidDelegate{Sender: A, Coins: shares(10), ValAddr: val0},
+				&lockuptypes.MsgLockTokens{Owner: B, Duration: unbond, Coins: shares(7)},
+				&sftypes.MsgSuperfluidDelegate{Sender: B, LockId: 2, ValAddr: val1},
+				&lockuptypes.MsgLockTokens{Owner: B, Duration: unbond, Coins: shares(3)},
+				&stakingtypes.MsgDelegate{DelegatorAddress: C, ValidatorAddress: val0, Amount: c("stake", 1_000_000)},
+				&valsettypes.MsgSetValidatorSetPreference{Delegator: C, Preferences: []valsettypes.ValidatorPreference{
+					{ValOperAddress: val0, Weight: osmomath.MustNewDecFromStr("0.3")}, {ValOperAddress: val1, Weight: osmomath.MustNewDecFromStr("0.7")}}},
+				&valsettypes.MsgDelegateToValidatorSet{Delegator: C, Coin: c("stake", 2_000_001)},
+			)},
+		{Dt: week, Txs: one(
+			swapIn(T, c("foo", 5_000_000), hop(1, "stake")),
+			&sftypes.MsgSuperfluidUndelegate{Sender: A, LockId: 1},
+			&distrtypes.MsgWithdrawDelegatorReward{DelegatorAddress: C, ValidatorAddress: val0},
+		)},
+		{Dt: week, Txs: one(
+			&sftypes.MsgSuperfluidUnbondLock{Sender: A, LockId: 1},
+			&lockuptypes.MsgLockTokens{Owner: B, Duration: unbond, Coins: shares(1)},
+			&valsettypes.MsgUndelegateFromRebalancedValidatorSet{Delegator: C, Coin: c("stake", 500_000)},
+			&stakingtypes.MsgUndelegate{DelegatorAddress: C, ValidatorAddress: val0, Amount: c("stake", 250_000)},
+		)},
+		{Dt: 22 * 24 * time.Hour, Txs: one(
+			&sftypes.MsgSuperfluidUndelegate{Sender: B, LockId: 2},
+			swapIn(T, c("stake", 100_000), hop(1, "foo")),
+		)},
+		{Dt: 5 * time.Second, Txs: one(swapIn(T, c("foo", 1_000), hop(1, "stake")))},
+	}}
+	return []Script{dex, skim, sf}
 }
